@@ -173,7 +173,7 @@ func genCases(c *Ctx) []Case {
 			}
 		}
 	}
-	for i := 0; i < c.N(1500, 20000); i++ {
+	for i := 0; i < c.N(1500, 8000); i++ {
 		a, b := d2[r.Intn(len(d2))], d2[r.Intn(len(d2))]
 		if r.Intn(3) == 0 {
 			b = d1[r.Intn(len(d1))]
@@ -185,7 +185,7 @@ func genCases(c *Ctx) []Case {
 		add("d2-sample", ts, nully())
 	}
 	// 4. random: a base type and near mutations of it, 2..6 values, repeated types
-	for i := 0; i < c.N(1200, 60000); i++ {
+	for i := 0; i < c.N(1200, 25000); i++ {
 		depth := 1 + r.Intn(3)
 		base := randType(r, depth)
 		n := 2 + r.Intn(5)
